@@ -70,6 +70,7 @@ pub fn replay(rf: &ReplayFile) -> anyhow::Result<Option<Failure>> {
         (_, s) if s.starts_with("fuzz-") => fuzzglue::replay(&case_from(rf)?),
         ("C01", _) => hybchecks::exec_c01(&case_from(rf)?).failure,
         ("C02", "free-crash") => memrace::replay_crash(&rf.case),
+        ("C02", "free-history") => memrace::replay_history(&rf.case),
         ("C02", _) => memrace::exec_case(&case_from(rf)?).failure,
         ("C06", _) => fetchcheck::exec_fetch(fetchcheck::Which::C06, &case_from(rf)?).failure,
         ("C11", _) => fetchcheck::exec_fetch(fetchcheck::Which::C11, &case_from(rf)?).failure,
